@@ -550,6 +550,19 @@ def monitors(tr, props):
             for b in range(a + 1, len(A)):
                 if A[a][1] > A[b][0]:
                     v.append(('C09', 'overlap', 'two callbacks overlap'))
+    if kind == 'resub' and (finished or (ab and ab['kind'] == 'deadlock' and all(b['kind'] == 'condvar' for b in ab['blocked']))):
+        exp = meta['items']
+        op = meta['op']
+        for obs in meta['observers']:
+            got = cbs.get(obs, [])
+            items = [c[4] for c in got if c[3] == 'n']
+            terms = [c[3] for c in got if c[3] in ('c', 'e')]
+            want = exp if op != 'debounce' else None
+            want = ((exp + exp) if obs == 'A' else exp) if op == 'subscribe_on_retry' else want  # only the very first attempt fails
+            if want is not None and items != want:
+                v.append(('C14', 'resubscription-items', 'subscriber %s of %s received %s, a sole subscriber receives %s' % (obs, op, items, want)))
+            if terms != ['c']:
+                v.append(('C14', 'resubscription-terminal', 'subscriber %s of %s received terminals %s' % (obs, op, terms)))
     if kind == 'scheduler':
         posted = {}
         ran = []
